@@ -11,6 +11,8 @@ import GocoinV.Proofs.C14HD
 import GocoinV.Proofs.C14Wallet
 import GocoinV.Proofs.C14Curve
 import GocoinV.Proofs.C14Norm
+import GocoinV.Proofs.C14Wif
+import GocoinV.Proofs.C14Getpass
 namespace GocoinV.Props.C14
 open GocoinV Proofs.C14 HD WalletKeys
 
@@ -459,6 +461,36 @@ theorem wif_roundtrip (C : WalletCrypto) (key : Bytes) (ver : UInt8) (compr : Bo
 example : (publicFromPrivate (Spec.Bip32.ser256 1) true).isSome = true := by
   decide +kernel
 
+/-- WIF IMPORT direction (holds since the `fix:` commit for finding `wif-flag-byte-unchecked`; before it, a
+    38-byte payload with a flag byte other than 01 imported as the uncompressed record, whose `String()` is a
+    different string): for EVERY string, if `DecodePrivateAddr(s)` yields the record `pa`, then `pa.String()`
+    is exactly `s` and the key has 32 bytes. With `wif_roundtrip`: a string is importable as `pa` iff it is the
+    export of `pa`. -/
+theorem wif_import_is_export (C : WalletCrypto) (s : Bytes) (pa : PrivAddr)
+    (h : decodePrivateAddr C s = .ok (.ok pa)) : privAddrString C pa = .ok s ∧ pa.key.length = 32 :=
+  privAddrString_of_decode C s pa h
+
+/-- hence two strings that import to the same key record (key, version, public key form, hash) are the same
+    string: a key has exactly one importable spelling per compression choice and version byte. -/
+theorem wif_import_unique (C : WalletCrypto) (s s' : Bytes) (pa : PrivAddr)
+    (h : decodePrivateAddr C s = .ok (.ok pa)) (h' : decodePrivateAddr C s' = .ok (.ok pa)) : s = s' :=
+  decodePrivateAddr_inj C s s' pa h h'
+
+/-- non-vacuity of the two theorems above: by `wif_roundtrip` every exported string of a key with a public key
+    (e.g. 00…01, example above) is accepted with a record. -/
+example (C : WalletCrypto) (hlen : ∀ b, (C.shaHash b).length = 32) :
+    ∃ s pa, decodePrivateAddr C s = .ok (.ok pa) := by
+  have hp : (publicFromPrivate (Spec.Bip32.ser256 1) true).isSome = true := by decide +kernel
+  obtain ⟨pb, hpb⟩ := Option.isSome_iff_exists.mp hp
+  have hnew : newPrivateAddr C (Spec.Bip32.ser256 1) 0x80 true =
+      .ok { key := Spec.Bip32.ser256 1, version := 0x80, addrVersion := 0x80 - 0x80, pubkey := pb, h160 := C.hash160 pb } := by
+    simp [newPrivateAddr, hpb]
+  have hpl := AddrWif.pub_length _ _ _ hpb
+  refine ⟨Base58.encode ((0x80 : UInt8) :: (Spec.Bip32.ser256 1 ++ [1]) ++
+      (C.shaHash ((0x80 : UInt8) :: (Spec.Bip32.ser256 1 ++ [1]))).take 4), _,
+    wif_roundtrip C _ 0x80 true _ _ (by decide) hlen hnew ?_⟩
+  simp [privAddrString, hpl]
+
 /-! ### address ↔ signing key, determinism -/
 
 /-- Every key record the wallet lists is internally consistent: the public key is the public key of the
@@ -498,5 +530,35 @@ theorem getpass_spec (c : Config) (file : Bytes) (h : file ≠ []) :
     getpass c file = some (c.secretSeed ++ file.take 1024) := by
   unfold getpass
   simp [h]
+
+/-- The interactive branch of `getpass`, stated outright: a typed session succeeds iff what was typed (one
+    terminal read, trailing control bytes dropped) is not empty and — in generation mode without `-1` — was
+    typed identically twice; the password handed to `make_wallet` is the `seed=` prefix followed by what was
+    typed; and the bytes saved to the seed file (generation mode, no `-p`, answer "y") are what was typed,
+    WITHOUT the prefix. -/
+theorem getpass_typed_spec (c : Config) (t : Typed) (out : Bytes) (sv : Option Bytes)
+    (h : getpassTyped c t = .ok (out, sv)) :
+    readPassword t.first ≠ [] ∧ out = c.secretSeed ++ readPassword t.first ∧
+    (t.genMode = true → t.singleAsk = false → readPassword t.second = readPassword t.first) ∧
+    sv = (if t.genMode ∧ !t.ask4pass ∧ t.save then some (readPassword t.first) else none) :=
+  getpassTyped_ok c t out sv h
+
+/-- "The same seed password and configuration produce the same ordered list of keys on every run", across the
+    save-the-password path: if a typed session saved the file `f`, then the NEXT run (which finds `f` and goes
+    through the seed-file branch, prepending the `seed=` prefix again) gets exactly the password of the typed
+    run, and `make_wallet` yields exactly the same wallet (mnemonic, extended keys, every key record, in
+    order) — for every configuration, prefix and hash-function instance. -/
+theorem saved_password_same_wallet (C : WalletCrypto) (c : Config) (t : Typed) (out f : Bytes)
+    (h : getpassTyped c t = .ok (out, some f)) :
+    getpass c f = some out ∧ makeWallet C c f = makeWalletTyped C c t :=
+  ⟨getpass_of_saved c t out f h, makeWallet_of_saved C c t out f h⟩
+
+/-- non-vacuity: "pw\n" typed twice under `-l`, answer y, with a `seed=` prefix: saved file = "pw" -/
+example :
+    let c : Config := { waltype := 4, hdpath := [], bip39wrds := 0, usescrypt := 0, hdsubs := 1, keycnt := 1,
+                        testnet := false, litecoin := false, atype := .p2kh, secretSeed := [0x53] }
+    let t : Typed := { first := [0x70, 0x77, 10], second := [0x70, 0x77, 13, 10], singleAsk := false,
+                       genMode := true, ask4pass := false, save := true }
+    getpassTyped c t = .ok ([0x53, 0x70, 0x77], some [0x70, 0x77]) := by decide
 
 end GocoinV.Props.C14
